@@ -195,6 +195,19 @@ CLAIMS = {
         tech="static analysis: loop-carried-state check, path enumeration, regex-AST shape lemma",
         ref="DESIGN.md section 2/C20",
     ),
+    "C14": dict(
+        cat="other",
+        text="Structural part: every Hyperscan hit is re-matched with the extractor's own Python pattern, the re-match is checked, tokens are "
+        "built by the same get_token/from_match with the slice origin as offset, byte->str offsets come from decoding and misaligned hits are "
+        "dropped; byte/character class soundness of all ~6,800 generated patterns under the actual flag expression (regex syntax trees); "
+        "cache-load handler set covers the root of the installed library's exception family, failed load => unset => recompile; cache key "
+        "digests the very expression/flag lists passed to compile, in order. Four open known findings (byte-mode boundary class and dot "
+        "atoms, two [§|s] Pub. L. patterns) are reported as KNOWN-FINDING.",
+        note="Not decided: candidate-by-candidate agreement with the reference tokenizer (Hyperscan matching semantics on concrete texts); "
+        "that a loaded cache database behaves like a fresh one; atomic cache writes. \\s \\d \\w atoms are outside C14's domain.",
+        tech="static analysis: regex-AST classification of atoms (one character vs one byte, re-alignable or not) over the generated pattern table; exception-handler coverage against the introspected library hierarchy; def-use of the cache key",
+        ref="DESIGN.md section 2/C14",
+    ),
 }
 
 NA = {
